@@ -497,8 +497,13 @@ func supervise(s Spec, tier string, seed int64) int {
 		cov["samples"] = []any{"(no sample recorded)"}
 	}
 	b, _ := json.MarshalIndent(ev, "", " ")
-	os.MkdirAll(filepath.Join(verifDir(), "evidence"), 0o755)
-	if err := os.WriteFile(filepath.Join(verifDir(), "evidence", s.ID+".json"), b, 0o644); err != nil {
+	evdir := filepath.Join(verifDir(), "evidence")
+	if x := os.Getenv("VERIF_EVIDENCE_DIR"); x != "" {
+		// runs against scratch worktrees (seeded changes) must not overwrite the evidence of /repo
+		evdir = x
+	}
+	os.MkdirAll(evdir, 0o755)
+	if err := os.WriteFile(filepath.Join(evdir, s.ID+".json"), b, 0o644); err != nil {
 		fmt.Fprintln(os.Stderr, "cannot write evidence:", err)
 		if exit == 0 {
 			exit = 2
